@@ -47,9 +47,25 @@ pub fn operands(c: &Case) -> (Vec<u8>, u64, u64, Vec<u8>) {
         v
     };
     let kk = if c.kind < 4 { c.kind } else { (r.below(5)) as u8 };
-    let key = words(&mut r, kk);
+    let mut key = words(&mut r, kk);
+    if c.kind == 8 {
+        // degenerate key schedules: all key words equal (so is the parity word when the constant
+        // is used), or a key whose parity word k[nw] is zero
+        let rw = r.u64();
+        let w: u64 = *r.pick(&[C240, 0x0101010101010101, rw]);
+        for ch in key.chunks_mut(8) {
+            ch.copy_from_slice(&w.to_le_bytes());
+        }
+        if r.below(2) == 0 {
+            let mut x = C240;
+            for ch in key.chunks(8).skip(1) {
+                x ^= u64::from_le_bytes(ch.try_into().unwrap());
+            }
+            key[..8].copy_from_slice(&x.to_le_bytes()); // xor of all words == C240  =>  k[nw] == 0
+        }
+    }
     let kb = if c.kind < 4 { c.kind } else { (r.below(5)) as u8 };
-    let blk = words(&mut r, kb);
+    let mut blk = words(&mut r, kb);
     let (t0, t1) = if c.use_new {
         (0, 0)
     } else {
@@ -60,7 +76,52 @@ pub fn operands(c: &Case) -> (Vec<u8>, u64, u64, Vec<u8>) {
             _ => (r.u64(), r.u64()),
         }
     };
+    // relational operands (only the *choice* of operands uses the key schedule; the oracle is
+    // still the reference model): blocks that cancel a subkey, so that the state right after the
+    // first key injection (encrypt) or right after the whitening is removed (decrypt) is zero in
+    // all or in single words -- the value-dependent corner a borrow/carry slip lives in
+    if (5..=7).contains(&c.kind) {
+        let nw = nb / 8;
+        let last = if nb == 128 { 20 } else { 18 };
+        let sub = |s: usize| -> Vec<u64> { subkey(&key, t0, t1, s) };
+        let (sk, neg) = match c.kind {
+            5 => (sub(0), true),     // plaintext = -subkey_0
+            6 => (sub(last), false), // ciphertext = final subkey
+            _ => (sub(if r.below(2) == 0 { 0 } else { last }), r.below(2) == 0),
+        };
+        let only: Option<usize> = if c.kind == 7 { Some(r.below(nw as u64) as usize) } else { None };
+        for j in 0..nw {
+            if only.map_or(true, |o| o == j || (r.below(4) == 0)) {
+                let w = if neg { sk[j].wrapping_neg() } else { sk[j] };
+                blk[8 * j..8 * j + 8].copy_from_slice(&w.to_le_bytes());
+            }
+        }
+    }
     (key, t0, t1, blk)
+}
+
+const C240: u64 = 0x1BD1_1BDA_A9FC_1A22;
+
+/// Subkey `s` of the Threefish key schedule (operand selection only).
+fn subkey(key: &[u8], t0: u64, t1: u64, s: usize) -> Vec<u64> {
+    let nw = key.len() / 8;
+    let mut k: Vec<u64> = key.chunks(8).map(|c| u64::from_le_bytes(c.try_into().unwrap())).collect();
+    let par = k.iter().fold(C240, |a, b| a ^ b);
+    k.push(par);
+    let t = [t0, t1, t0 ^ t1];
+    (0..nw)
+        .map(|i| {
+            let mut w = k[(s + i) % (nw + 1)];
+            if i == nw - 3 {
+                w = w.wrapping_add(t[s % 3]);
+            } else if i == nw - 2 {
+                w = w.wrapping_add(t[(s + 1) % 3]);
+            } else if i == nw - 1 {
+                w = w.wrapping_add(s as u64);
+            }
+            w
+        })
+        .collect()
 }
 
 /// The slice / parallel-block entry points of the block-cipher traits: n distinct blocks
@@ -218,17 +279,21 @@ pub fn run(cx: &mut Ctx) {
     let unroll = if cfg!(feature = "nounroll") { "no_unroll" } else { "unrolled" };
     for i in 0..cx.budget {
         let nb = [32usize, 64, 128][(i % 3) as usize];
-        let kind = match rng.below(10) {
+        let kind = match rng.below(16) {
             0 => 0,
             1 => 1,
             2 => 2,
             3 => 3,
+            4 => 5,
+            5 => 6,
+            6 | 7 => 7,
+            8 => 8,
             _ => 4,
         };
         let c = Case { nb, seed: rng.u64(), kind, use_new: rng.below(6) == 0 };
         cx.log.announce(&c.desc());
         cx.log.nontrivial();
-        cx.log.class(&format!("threefish{}/{}/{}/{}", nb * 8, unroll, ["zero", "ones", "one-hot", "carry-words", "random"][kind as usize], if c.use_new { "new" } else { "with_tweak" }));
+        cx.log.class(&format!("threefish{}/{}/{}/{}", nb * 8, unroll, ["zero", "ones", "one-hot", "carry-words", "random", "cancels-first-subkey", "equals-final-subkey", "word-equals-subkey-word", "degenerate-key"][kind as usize], if c.use_new { "new" } else { "with_tweak" }));
         cx.log.class(&format!("config={}-{}", unroll, api::profile()));
         exec(cx, &c);
     }
